@@ -126,6 +126,63 @@ def mc_and_replay(run, label, alphabet, maxbytes, policies, cmts, modes):
         run.count([label, res.cases[ci]['policy'], res.cases[ci]['cmt'], b], nontrivial=(len(b) >= 2 and (10 in b or 13 in b or 34 in b or any(x >= 128 for x in b))), n=n)
 
 
+LONG_TEXTS = ['r1\nr2\nr3\nr4\nr5\nr6\nr7\nr8\n', 'a,b\r\nc,d\r\ne,f\r\ng,h\r\ni,j', '1\n2\n3\n4\n5\n6\n7\n8\n9\n10\n11\n12', '"x,1",y\n"z ""q""",w\nk\n#c\nl,m\n\nn\n',
+              'é1\n€2\n\U0001F6003\n4\n5\n6\n']
+
+
+def queue_schedules(run):
+    """Records queue up inside the reader while the consumer is slower than the producer: longer inputs (6-12 records) cut into chunks
+    holding several records each, the consumer taking 1 or 2 records per delivered chunk and draining at the end.  The recorded results are
+    judged by TLC (BadByteTrace: result = RefRead(Decode(bytes)))."""
+    import random
+    rnd = random.Random(run.seed + 20)
+    reqs, traces = [], []
+    for text in LONG_TEXTS:
+        data = list(text.encode('utf-8'))
+        cuts = [[k] * (len(data) // k) + ([len(data) % k] if len(data) % k else []) for k in (1, 2, 3, 5, 7, 9, 12, 16, len(data))]
+        for _ in range(6 if run.tier == 'quick' else 40):
+            lens, left = [], len(data)
+            while left:
+                k = min(left, rnd.randint(1, 14))
+                lens.append(k)
+                left -= k
+            cuts.append(lens)
+        for policy in ('quoted', 'quoted_rfc', 'simple'):
+            for lens in cuts:
+                for take in (1, 2):
+                    reqs.append({'op': 'read', 'encoding': 'utf-8', 'dlm': ',', 'policy': policy, 'comment': '#', 'chunks': cut(data, lens), 'mode': 'stream', 'alternate': take})
+                    traces.append({'tid': len(traces) + 1, 'bytes': data, 'policy': policy, 'cmt': 35, 'schedule': [lens, take]})
+    resp = node.run_batch(reqs, nproc=par.NPROC)
+    for t, r in zip(traces, resp):
+        got = js_result(r)
+        run.traces += 1
+        run.count(['queue', t['policy'], str(t['schedule']), len(t['bytes'])], nontrivial=len(t['schedule'][0]) < len(t['bytes']))
+        if 'other_error' in got:
+            t.update(ioerr='decode' in got['other_error'], other='decode' not in got['other_error'], result={'recs': [], 'bom': False, 'firstdef': 0, 'ragged': [], 'err': False, 'errnr': 0, 'errnl': 0}, msg=got['other_error'])
+        else:
+            got = dict(got)
+            got['recs'] = [[list(map(ord, f)) for f in rec] for rec in got['recs']]
+            t.update(ioerr=False, other=False, result=got, msg='')
+    d = tlcrun.new_scratch('c20q')
+    path = os.path.join(d, 'traces.ndjson')
+    with open(path, 'w') as f:
+        for t in traces:
+            f.write(json.dumps({k: t[k] for k in ('tid', 'bytes', 'policy', 'cmt', 'ioerr', 'other', 'result')}) + '\n')
+    c2 = {'Alphabet': '{}', 'MaxLen': 0, 'Policies': '{}', 'CommentChars': '{}', 'Enc': '"utf-8"', 'DlmA': 44, 'EmitCases': 'FALSE', 'MUT': '""'}
+    tcfg = tlcrun.write_cfg(os.path.join(d, 'trace.cfg'), constants=c2, init='TInit', next_='TNext', invariants=['Judge'])
+    tres = tlcrun.run_tlc('BadByteTrace', tcfg, workers=1, env={'TRACE_FILE': path}, timeout=3600)
+    run.add_tlc('BadByteTrace:queued-records', tres)
+    if not any(c.get('consumed') == len(traces) for c in tres.cases):
+        core.machinery_failure('queued-records trace batch not consumed')
+    bytid = {t['tid']: t for t in traces}
+    for c in tres.cases:
+        if 'reject' in c:
+            t = bytid[c['reject']]
+            run.violation({'impl': 'js', 'what': 'slow consumer: result rejected by BadByteTrace (differs from RefRead)', 'policy': t['policy'], 'nbytes': len(t['bytes']), 'msg': t['msg'][:80],
+                           'got_nrecs': len(t['result']['recs'])}, {'kind': 'queue_case', 'bytes': t['bytes'], 'policy': t['policy'], 'schedule': t['schedule']})
+    run.sample({'queued_records_trace': {'text': LONG_TEXTS[0], 'schedule': traces[3]['schedule'], 'policy': traces[3]['policy']}})
+
+
 def big_files(run):
     """Files larger than the 64 KiB default chunk of fs.createReadStream with a multi-byte character, a CRLF and a quoted
     multi-line field straddling byte 65536: stream mode must equal bulk mode (whose meaning TLC fixes on the small cases)."""
@@ -170,7 +227,7 @@ def check(run):
     quick = run.tier == 'quick'
     run.rule = ('case = (byte string, policy, comment prefix) with every byte string up to the bound over {a, quote, comma, LF, CR, #} and over {a, LF, CR, pieces of 2-/3-/4-byte UTF-8 sequences, 0xFF}; '
                 'each delivered to the real rbql-js CSVRecordIterator under all 2^(n-1) partitions x {consumer first, producer first, whole input before the first get_record} + bulk mode; '
-                'plus 5 files of 64 KiB + with a multi-byte character / CRLF / quoted multi-line field straddling byte 65536 through fs.createReadStream; evaluations = reader runs; '
+                'plus 5 longer inputs (6-12 records) x fixed and random cuts x a consumer taking 1 or 2 records per delivered chunk, judged by TLC (BadByteTrace); plus 5 files of 64 KiB + with a multi-byte character / CRLF / quoted multi-line field straddling byte 65536 through fs.createReadStream; evaluations = reader runs; '
                 'non-trivial = >= 2 bytes with a line break, quote or non-ASCII byte')
     run.assumptions = ['single-character delimiter and comment prefix', 'the event loop is driven deterministically by a hand-pushed Readable (real fs streams only for the 64 KiB files)']
     d = tlcrun.new_scratch('c20mut')
@@ -182,6 +239,7 @@ def check(run):
     mc_and_replay(run, 'ascii6', [97, 34, 44, 10, 13, 35], 4 if quick else 6, ['simple', 'quoted', 'quoted_rfc'], [0, 35], modes if not quick else modes[:2])
     mc_and_replay(run, 'multibyte', [97, 10, 13, 195, 169, 226, 130, 172, 240, 159, 152, 128, 255], 3 if quick else 4, ['quoted'], [0], modes)
     mc_and_replay(run, 'bom', [97, 10, 239, 187, 191, 44], 4 if quick else 5, ['quoted', 'quoted_rfc'], [0], modes[:2])
+    queue_schedules(run)
     big_files(run)
     run.exhaustive = True
 
@@ -199,6 +257,8 @@ def replay(path):
             run.traces += 1
             if sig:
                 run.violation(sig, c)
+    elif c['kind'] == 'queue_case':
+        queue_schedules(run)
     else:
         big_files(run)
     return run.finish()
